@@ -603,3 +603,7 @@ PROPS['C19']['bounds_text'] += '; supplement (enumerated runs of the real binary
 # copyAST must not crash on any node kind with its optional children absent (C20), seeded change S132
 for _t in ('quick', 'thorough'):
     PROPS['C20'][_t] = PROPS['C20'][_t] + [copyast()]
+
+
+# the kinds family (interface results, bindings, structs) also in C03's quick tier (seeded change S122)
+PROPS['C03']['quick'] = PROPS['C03']['quick'] + [sideb(['kinds'])]
